@@ -6,6 +6,7 @@ package router
 
 import (
 	"fmt"
+	"os"
 	"testing"
 	"time"
 
@@ -15,28 +16,30 @@ import (
 	"github.com/IrineSistiana/mosproxy/internal/zzverif/report"
 )
 
-var c09Sizes = []int{0, 2, 4, 5, 16, 255, 256, 300, 520} // number of 255-byte TXT records in the upstream answer (the uncompressed size crosses 512, 1232, 4096 and 65535)
+const c09W = 6 // boundary mode: full response sizes limit-c09W .. limit+c09W, one by one
+
+var c09Sizes = []int{0, 2, 4, 5, 16, 255, 256, 300, 520, -1} // -1: boundary mode, see c09Scenario; otherwise number of 255-byte TXT records in the upstream answer (the uncompressed size crosses 512, 1232, 4096 and 65535)
 
 var c09Adv = []int{-1, 0, 100, 512, 1232, 4096, 65535}
 
-func c09Answer(q *refdns.Msg, n int) *refdns.Msg {
-	m := env.Answer(q, 1, 60)
-	for i := 0; i < n; i++ {
-		r := refdns.TXT(q.Q[0].Name, uint32(100+i%50), 240, byte('a'+i%26))
-		if i%3 == 2 {
-			m.Ns = append(m.Ns, r)
-		} else {
-			m.An = append(m.An, r)
-		}
-	}
-	return m
-}
+// c09AsC13: the same exploration restricted to the stream listeners of C13 and to big responses (boundary mode and 300 records):
+// every response must come out as one frame whose prefix equals its body length, also at the largest sizes.
+var c09AsC13 = os.Getenv("VERIF_PROP") == "C13"
 
 func c09Scenario(c *choice.Ctx, rep *report.R) {
 	own := env.InstallOwn(0xA5, vRace)
 	defer env.UninstallOwn()
-	seam := c03Seams[c.Choose(len(c03Seams), "seam")]
-	n := c09Sizes[c.Choose(len(c09Sizes), "records")]
+	seams, sizes := c03Seams, c09Sizes
+	if c09AsC13 {
+		seams, sizes = nil, []int{-1, 300, 5}
+		for _, sm := range c03Seams {
+			if sm.name == "tcp" || sm.name == "gnet" || sm.name == "tls" {
+				seams = append(seams, sm)
+			}
+		}
+	}
+	seam := seams[c.Choose(len(seams), "seam")]
+	n := sizes[c.Choose(len(sizes), "records")]
 	adv := -1
 	if seam.name == "udp" {
 		adv = c09Adv[c.Choose(len(c09Adv), "advertised")]
@@ -44,8 +47,19 @@ func c09Scenario(c *choice.Ctx, rep *report.R) {
 		adv = 1232
 	}
 	cached := c.Choose(2, "second-from-cache") == 1
+	delta := 0
+	if n < 0 {
+		delta = c.Choose(2*c09W+1, "boundary-delta") - c09W
+	}
 	desc := fmt.Sprintf("seam=%s records=%d advertised=%d cached=%v", seam.name, n, adv, cached)
+	if n < 0 {
+		desc = fmt.Sprintf("seam=%s full-response-size=limit%+d advertised=%d cached=%v", seam.name, delta, adv, cached)
+	}
 	fail := func(sig, msg string) {
+		if c09AsC13 {
+			rep.Violate("C13:response-size:"+seam.name+":"+sig, msg+"\n  "+desc, map[string]any{"Choices": c.Choices()})
+			return
+		}
 		rep.Violate("C09:listener:"+seam.name+":"+sig, msg+"\n  "+desc, map[string]any{"Choices": c.Choices()})
 	}
 	cfg := c03Config("forward")
@@ -57,13 +71,37 @@ func c09Scenario(c *choice.Ctx, rep *report.R) {
 	}
 	defer v.Close()
 	var up *refdns.Msg
+	txt, tail := 240, 0
 	v.ups["u1"].Auto = func(q *upQuery) *upResult {
-		up = c09Answer(q.Msg, n)
+		up = c09AnswerT(q.Msg, n, txt, tail)
 		return &upResult{wire: up.Encode(false)}
 	}
 	q := refdns.Query(0x0909, refdns.N("big", "example", "test"), 16, 1)
 	if adv >= 0 {
 		q.Ar = []refdns.RR{refdns.OPT(uint16(adv), 0, nil)}
+	}
+	if n < 0 {
+		// boundary mode: the answer is composed so that the complete response, as this listener encodes it, is exactly
+		// limit+delta octets. The encoding is measured, not assumed: two probe queries (same name length, 2 and 3 records,
+		// big advertised size) through the same listener give the fixed part and the size of one record.
+		lim := 65535
+		if seam.name == "udp" {
+			lim, txt = 512, 40
+			if adv > 512 {
+				lim = adv
+			}
+			if lim > 4096 {
+				txt = 240
+			}
+		}
+		var fixed, rec int
+		var cerr string
+		n, tail, fixed, rec, cerr = c03Compose(v, seam, adv >= 0, txt, lim+delta, func(k int) { n = k })
+		if cerr != "" {
+			fail("boundary-compose", cerr)
+			return
+		}
+		desc += fmt.Sprintf(" (limit %d: %d records of %d + one root-owned record of %d text octets, measured fixed=%d rec=%d)", lim, n, txt, tail, fixed, rec)
 	}
 	rounds := 1
 	if cached {
@@ -77,6 +115,14 @@ func c09Scenario(c *choice.Ctx, rep *report.R) {
 		hsleep(100 * time.Millisecond)
 		wait()
 		_, raws := cl.responses()
+		if len(raws) == 0 && seam.name == "udp" && n >= 0 && tail > 0 && adv > 65507 && delta+adv > 65507 {
+			// a response of more than 65507 octets cannot be sent as one UDP datagram: the query gets no response at all. That is C03's
+			// subject (recorded there as a known finding), not a size-limit violation.
+			rep.Count("udp_response_over_65507_not_sent", 1)
+			cl.close()
+			wait()
+			break
+		}
 		if len(raws) != 1 {
 			fail("response-count", fmt.Sprintf("%d responses", len(raws)))
 			return
@@ -142,6 +188,17 @@ func c09Scenario(c *choice.Ctx, rep *report.R) {
 		if t := own.Tainted(raw); t != "" {
 			fail("tainted-response", "response contains "+t)
 		}
+		if tail > 0 {
+			// self-check of the composition: for delta <= 0 the complete response must have been produced with exactly that size
+			if delta <= 0 && omitted == 0 && len(raw) == limit+delta {
+				rep.Count("boundary_exact_size_produced", 1)
+			} else if delta > 0 && omitted > 0 {
+				rep.Count("boundary_over_limit_truncated", 1)
+			} else {
+				rep.Count("boundary_composition_off", 1)
+				rep.Note(fmt.Sprintf("boundary composition off: %s => %d octets, %d omitted", desc, len(raw), omitted))
+			}
+		}
 		obs += fmt.Sprintf("%d/%d;", len(raw), omitted)
 		cl.close()
 		wait()
@@ -156,10 +213,10 @@ func c09Scenario(c *choice.Ctx, rep *report.R) {
 }
 
 func TestVerifC09Listeners(t *testing.T) {
-	rep := report.New("C09 listener size limits")
+	rep := report.New(map[bool]string{false: "C09 listener size limits", true: "C13 framing of the largest responses"}[c09AsC13])
 	defer rep.Write()
-	rep.Rule = fmt.Sprintf("E3: real router+cache, auto-answering upstream returning %v TXT records of 255 bytes (uncompressed sizes from 60 bytes to ~130 KiB) through every listener seam (udp, tcp, gnet, tls, http get/post, fasthttp get/post, quic); "+
-		"UDP x advertised payload size %v (-1 = no OPT); stream seams x client OPT on/off; first (relayed) and second (cached) response; oracle: body <= max(512, advertised) on UDP and <= 65535 elsewhere, decodes cleanly, TC iff records omitted, nothing omitted when the uncompressed encoding fits, question and OPT retained, kept records in order", c09Sizes, c09Adv)
+	rep.Rule = fmt.Sprintf("E3: real router+cache, auto-answering upstream returning %v TXT records of 255 bytes (uncompressed sizes from 60 bytes to ~130 KiB) through every listener seam (udp, tcp, gnet, tls, http get/post, fasthttp get/post, quic), and (records=-1) answers composed so that the complete response is exactly limit-%d..limit+%d octets, one by one, with the listener's own encoding measured by two probe queries; "+
+		"UDP x advertised payload size %v (-1 = no OPT); stream seams x client OPT on/off; first (relayed) and second (cached) response; oracle: body <= max(512, advertised) on UDP and <= 65535 elsewhere, decodes cleanly, TC iff records omitted, nothing omitted when the uncompressed encoding fits, question and OPT retained, kept records in order", c09Sizes, c09W, c09W, c09Adv)
 	st := runExplore(t, rep, -1, func(c *choice.Ctx) { c09Scenario(c, rep) })
 	rep.Count("executions", st.Executions)
 	rep.Sample(map[string]any{"seam": "tcp", "records": 300, "expect": "frame prefix == body length <= 65535, TC set, counts match"})
